@@ -1,4 +1,6 @@
 import EAO.Model.Slp
+import EAO.Model.Assemble
+import EAO.Model.Readout
 import EAO.Lemmas.Blocks
 import Mathlib.Algebra.Order.Field.Rat
 import Mathlib.Tactic.Linarith
@@ -625,5 +627,213 @@ theorem firstRows_copyBlocks (mask : List Bool) (n : Nat) (M : List MapRow) (hM 
         obtain ⟨m1, hm1, e⟩ := List.mem_map.mp h1
         have := hM m1 hm1
         omega
+
+/-! ### read-out of the dispatch of an SLP result -/
+
+theorem mean_add (S : Nat) (f g : Nat → Rat) : mean S (fun s => f s + g s) = mean S f + mean S g := by
+  unfold mean
+  rw [sum_map_add_rat, add_div]
+
+/-- mean over the scenarios of a sum over a list = sum of the means -/
+theorem mean_list_sum {α : Type} (S : Nat) (L : List α) (h : α → Nat → Rat) :
+    mean S (fun s => (L.map fun m => h m s).sum) = (L.map fun m => mean S (h m)).sum := by
+  induction L with
+  | nil => simp [mean_const S 0]
+  | cons m L ih =>
+    simp only [List.map_cons, List.sum_cons]
+    rw [mean_add, ih]
+
+theorem sum_map_div {α : Type} (L : List α) (f : α → Rat) (k : Rat) :
+    (L.map fun a => f a / k).sum = (L.map f).sum / k := by
+  induction L with
+  | nil => simp
+  | cons a L ih => simp only [List.map_cons, List.sum_cons, ih, add_div]
+
+/-- double sum with the inner list filtered = sum over the unfiltered list with an indicator -/
+theorem sum_filter_comm {α : Type} (S : Nat) (L : List α) (p : α → Bool) (h : Nat → α → Rat) :
+    ((List.range S).map fun i => ((L.filter p).map (h i)).sum).sum =
+      (L.map fun m => if p m then ((List.range S).map fun i => h i m).sum else 0).sum := by
+  induction L with
+  | nil => simp
+  | cons m L ih =>
+    by_cases hp : p m = true
+    · simp only [List.filter_cons_of_pos hp, List.map_cons, List.sum_cons, hp, if_true]
+      rw [sum_map_add_rat, ih]
+    · simp only [List.filter_cons_of_neg hp, List.map_cons, List.sum_cons, hp]
+      rw [ih]; simp
+
+/-- mean over the scenarios of the contribution of one mapping row of the original problem -/
+theorem row_mean (mask : List Bool) (n S : Nat) (z : Vec) (v : Nat) (f : Rat) :
+    mean S (fun s => z (slpEmbed mask n s v) * f) =
+      if mask.getD v false = true then
+        (z v * f + ((List.range S).map fun i => z (slpEmbed mask n (i + 1) v) * f).sum) / ((S : Rat) + 1)
+      else z v * f := by
+  unfold mean
+  rw [sum_range_succ_shift]
+  split
+  · rfl
+  · rename_i hm
+    have hm' : mask.getD v false = false := by simpa using hm
+    simp only [slpEmbed_zero, slpEmbed_succ_unsel mask n _ v hm']
+    rw [sum_range_const]
+    have := scen_pos S
+    field_simp
+    ring
+
+theorem sum_flatMap_rat {α : Type} (L : List α) (f : α → List Rat) :
+    (L.flatMap f).sum = (L.map fun a => (f a).sum).sum := by
+  induction L with
+  | nil => simp
+  | cons a L ih => simp only [List.flatMap_cons, List.sum_append, List.map_cons, List.sum_cons, ih]
+
+theorem isDisp_relabel (g : Nat → Nat) (n : String) (t : Nat) (m : MapRow) :
+    isDisp n t (relabel g m) = isDisp n t m := rfl
+
+/-- the dispatch table entry computed from the tagged rows of the SLP mapping (original rows tagged −1 when
+    future, copies tagged with their sample): per original row of the cell, a present row contributes once, a
+    future row contributes the sum over its `S+1` copies divided by `k` -/
+theorem slpDispatchRows_eq (M : List MapRow) (fut : MapRow → Bool) (g : Nat → Nat → Nat) (S : Nat) (k : Rat)
+    (a n : String) (t : Nat) (z : Vec) :
+    slpDispatchRows
+        (M.map (fun m => (m, if fut m then some (-1 : Int) else none)) ++
+          (List.range S).flatMap fun i => (M.filter fut).map fun m => (relabel (g i) m, some (Int.ofNat i)))
+        k a n t z =
+      ((M.filter fun m => m.asset == a && isDisp n t m).map fun m =>
+        if fut m then (z m.var * m.factor + ((List.range S).map fun i => z (g i m.var) * m.factor).sum) / k
+        else z m.var * m.factor).sum := by
+  unfold slpDispatchRows
+  rw [List.filter_append, List.map_append, List.sum_append]
+  -- original rows
+  have h1 : ((M.map fun m => (m, if fut m then some (-1 : Int) else none)).filter fun p => p.1.asset == a && isDisp n t p.1).map
+      (fun p => if p.2.isSome then p.1.contrib z / k else p.1.contrib z) =
+      (M.filter fun m => m.asset == a && isDisp n t m).map fun m => if fut m then z m.var * m.factor / k else z m.var * m.factor := by
+    rw [List.filter_map, List.map_map]
+    apply List.map_congr_left
+    intro m _
+    simp only [Function.comp, MapRow.contrib]
+    by_cases hf : fut m = true
+    · simp [hf]
+    · simp [hf]
+  -- copies
+  have h2 : ((((List.range S).flatMap fun i => (M.filter fut).map fun m => (relabel (g i) m, some (Int.ofNat i))).filter
+        fun p => p.1.asset == a && isDisp n t p.1).map
+      (fun p => if p.2.isSome then p.1.contrib z / k else p.1.contrib z)).sum =
+      ((List.range S).map fun i => (((M.filter fun m => m.asset == a && isDisp n t m).filter fut).map
+        fun m => z (g i m.var) * m.factor / k).sum).sum := by
+    rw [List.filter_flatMap, List.map_flatMap, sum_flatMap_rat]
+    congr 1
+    apply List.map_congr_left
+    intro i _
+    rw [List.filter_map, List.map_map, List.filter_filter, List.filter_filter]
+    congr 1
+    have e : (fun m => fut m && (m.asset == a && isDisp n t m)) =
+        (fun m => ((fun p : MapRow × Option Int => p.1.asset == a && isDisp n t p.1) ∘
+          fun m => (relabel (g i) m, some (Int.ofNat i))) m && fut m) := by
+      funext m
+      simp only [Function.comp, isDisp_relabel]
+      show _ = ((m.asset == a && isDisp n t m) && fut m)
+      rw [Bool.and_comm]
+    rw [← e]
+    apply List.map_congr_left
+    intro m _
+    simp [Function.comp, MapRow.contrib, relabel]
+  rw [h1, h2, sum_filter_comm, ← sum_map_add_rat]
+  congr 1
+  apply List.map_congr_left
+  intro m _
+  by_cases hf : fut m = true
+  · simp only [hf, if_true]
+    rw [sum_map_div, add_div]
+  · simp [hf]
+
+/-! ### number of distinct sample ids -/
+
+theorem zip_map_fst_snd' {α β : Type} (l : List (α × β)) : (l.map (·.1)).zip (l.map (·.2)) = l := by
+  simpa [List.unzip_eq_map] using List.zip_unzip l
+
+theorem mem_distinctInts (l seen : List (Option Int)) (x : Option Int) :
+    x ∈ distinctInts l seen ↔ x ∈ l ∧ x ∉ seen := by
+  induction l generalizing seen with
+  | nil => simp [distinctInts]
+  | cons a l ih =>
+    simp only [distinctInts]
+    split
+    · rename_i hc
+      have ha : a ∈ seen := by simpa using hc
+      rw [ih seen]
+      constructor
+      · rintro ⟨h1, h2⟩; exact ⟨List.mem_cons_of_mem _ h1, h2⟩
+      · rintro ⟨h1, h2⟩
+        rcases List.mem_cons.mp h1 with h | h
+        · exact absurd (h ▸ ha) h2
+        · exact ⟨h, h2⟩
+    · rename_i hc
+      have ha : a ∉ seen := by simpa using hc
+      rw [List.mem_cons, ih (a :: seen)]
+      constructor
+      · rintro (h | ⟨h1, h2⟩)
+        · exact ⟨h ▸ List.mem_cons_self, h ▸ ha⟩
+        · exact ⟨List.mem_cons_of_mem _ h1, fun hh => h2 (List.mem_cons_of_mem _ hh)⟩
+      · rintro ⟨h1, h2⟩
+        by_cases hx : x = a
+        · exact Or.inl hx
+        · refine Or.inr ⟨?_, ?_⟩
+          · rcases List.mem_cons.mp h1 with h | h
+            · exact absurd h hx
+            · exact h
+          · intro hh
+            rcases List.mem_cons.mp hh with h | h
+            · exact hx h
+            · exact h2 h
+
+theorem nodup_distinctInts (l seen : List (Option Int)) : (distinctInts l seen).Nodup := by
+  induction l generalizing seen with
+  | nil => simp [distinctInts]
+  | cons a l ih =>
+    simp only [distinctInts]
+    split
+    · exact ih seen
+    · rw [List.nodup_cons]
+      refine ⟨fun hh => ?_, ih (a :: seen)⟩
+      exact ((mem_distinctInts l (a :: seen) a).mp hh).2 List.mem_cons_self
+
+/-- if some mapping row belongs to a future variable, the sample ids are `−1, 0, …, S−1`: `S+1` distinct values -/
+theorem slpNSamples_tags (M : List MapRow) (fut : MapRow → Bool) (S : Nat) (hne : ∃ m ∈ M, fut m = true) :
+    slpNSamples (M.map (fun m => if fut m then some (-1 : Int) else none) ++
+      (List.range S).flatMap fun i => (M.filter fut).map fun _ => some (Int.ofNat i)) = S + 1 := by
+  obtain ⟨m0, hm0, hf0⟩ := hne
+  unfold slpNSamples
+  have hT : (some (-1 : Int) :: (List.range S).map fun i => some (Int.ofNat i)).Nodup := by
+    rw [List.nodup_cons]
+    constructor
+    · intro hh
+      obtain ⟨i, _, e⟩ := List.mem_map.mp hh
+      have : (i : Int) = -1 := Option.some.inj e
+      omega
+    · refine List.Pairwise.map _ (fun i j hne e => hne ?_) List.nodup_range
+      have : (i : Int) = (j : Int) := Option.some.inj e
+      omega
+  have hmem : ∀ x, x ∈ distinctInts ((M.map (fun m => if fut m then some (-1 : Int) else none) ++
+        (List.range S).flatMap fun i => (M.filter fut).map fun _ => some (Int.ofNat i)).filter (·.isSome)) [] ↔
+      x ∈ (some (-1 : Int) :: (List.range S).map fun i => some (Int.ofNat i)) := by
+    intro x
+    rw [mem_distinctInts, List.mem_filter, List.mem_append, List.mem_cons]
+    constructor
+    · rintro ⟨⟨h1 | h1, h2⟩, _⟩
+      · obtain ⟨m, _, e⟩ := List.mem_map.mp h1
+        by_cases hf : fut m = true
+        · left; rw [← e]; simp [hf]
+        · rw [← e] at h2; simp [hf] at h2
+      · obtain ⟨i, hi, h3⟩ := List.mem_flatMap.mp h1
+        obtain ⟨_, _, e⟩ := List.mem_map.mp h3
+        right
+        exact List.mem_map.mpr ⟨i, hi, e⟩
+    · rintro (h | h)
+      · refine ⟨⟨Or.inl (List.mem_map.mpr ⟨m0, hm0, by simp [hf0, h]⟩), by simp [h]⟩, by simp⟩
+      · obtain ⟨i, hi, e⟩ := List.mem_map.mp h
+        refine ⟨⟨Or.inr (List.mem_flatMap.mpr ⟨i, hi, List.mem_map.mpr ⟨m0, List.mem_filter.mpr ⟨hm0, hf0⟩, e⟩⟩), by simp [← e]⟩, by simp⟩
+  have hp := (List.perm_ext_iff_of_nodup (nodup_distinctInts _ []) hT).mpr hmem
+  rw [hp.length_eq]
+  simp
 
 end EAO.Slp
